@@ -100,6 +100,21 @@ def oracle(script: dict, run: Any) -> List[Violation]:
         # (b)/(c) accepted deliveries finished before return
         t_req = req[1]
         if ret is not None:
+            # "... to completion (including its acknowledgement)": a delivery whose processing is over by the time listen() returns
+            # has had its acknowledgement completed, not merely started (a Future / lazy awaitable returned by ack() is awaited)
+            for e in takes:
+                d = e[4]
+                x = exits.get(d)
+                if x is None or x[0] > ret[0] or x[5].get("how") != "ok":
+                    continue
+                ac = h.first(d, "ack_call")
+                ad = h.first(d, "ack_done")
+                spec = (h.msg(script, e[5]["k"]).get("ack") or {})
+                if ac is not None and ac[0] < ret[0] and not spec.get("fail") and not spec.get("cancel") and (ad is None or ad[0] > ret[0]):
+                    out.append(Violation("C05/returned-before-ack-completed", f"{node} returned from listen() at event {ret[0]} while the acknowledgement of delivery {d} "
+                                         f"(begun at event {ac[0]}) had not completed ({'event %d' % ad[0] if ad else 'never'})", d=d))
+                    break
+        if ret is not None:
             unfinished = [e[4] for e in takes if e[0] < ret[0] and (e[4] not in exits or exits[e[4]][0] > ret[0])]
             if unfinished:
                 if W_us is None:
